@@ -60,8 +60,8 @@ def bool_faults():
 
 POSITIONS = ["assign-rhs", "compound-rhs", "call-arg", "if-cond", "elif-cond", "for-cond", "for-init", "for-step", "return", "conc-child", "map-key-assign", "nested-if-in-for",
              "method-arg", "three-level-arg", "conc-call-arg", "conc-method-arg", "conc-three-level-arg",
-             "conc-in-for", "conc-in-if-in-for", "conc-in-if", "conc-in-else"]
-NEEDS_H = ("method-arg", "three-level-arg", "conc-method-arg", "conc-three-level-arg")
+             "conc-in-for", "conc-in-if-in-for", "conc-in-if", "conc-in-else", "conc-only-three-level", "conc-only-methods", "conc-only-functions"]
+NEEDS_H = ("method-arg", "three-level-arg", "conc-method-arg", "conc-three-level-arg", "conc-only-three-level", "conc-only-methods")
 
 
 def place(pos, nf, bf):
@@ -122,6 +122,19 @@ def place(pos, nf, bf):
         inner = {"conc-in-for": lambda: loop(cb), "conc-in-if-in-for": lambda: loop(sif(true_, block([cb]))), "conc-in-if": lambda: sif(true_, block([cb])),
                  "conc-in-else": lambda: sif(false_, block([fresh(1)]), [], block([cb]))}[pos]()
         return block([loc, inner, fresh(2)])
+    if pos in ("conc-only-three-level", "conc-only-methods", "conc-only-functions"):
+        # a block made of calls of ONE kind only, one of them failing (one: the order of several errors is the scheduler's): however the
+        # block collects its children's errors, it must join
+        if as_n is None:
+            return None
+        arg = as_arg(emath(as_n))
+        import copy
+        mk = {"conc-only-three-level": lambda a: call("three", "h.PSub.GetN", [a]), "conc-only-methods": lambda a: call("method", "h.Id64", [a]),
+              "conc-only-functions": lambda a: call("func", "IdI64", [a])}[pos]
+        if "'call'" in repr(arg) or "'k':" in repr(arg):
+            return None      # the faulty argument itself records calls: their order relative to the siblings' is the scheduler's
+        # the two sound siblings record the SAME call, so that the recorded sequence does not depend on the schedule
+        return block([loc, sconc([("call", mk(("const", kint(3)))), ("call", mk(copy.deepcopy(arg))), ("call", mk(("const", kint(3))))]), fresh(2)])
     if pos == "map-key-assign":
         if as_n is None:
             return None
@@ -222,7 +235,7 @@ def engine_cases(rng, tier):
 
 
 RULE = ("(A) rule level: 31 fault classes (type mismatches, missing names / functions / fields, nil pointers, empty and out-of-range containers, wrong key kinds, non-boolean conditions, ! on non-booleans, "
-        "panicking functions and methods, wrong argument counts and kinds, division by zero, no-result calls used as values) x 21 construct positions (assignment and compound-assignment right-hand sides, call arguments, "
+        "panicking functions and methods, wrong argument counts and kinds, division by zero, no-result calls used as values) x 24 construct positions (assignment and compound-assignment right-hand sides, call arguments, "
         "if / else-if / for conditions, for init and step, return expressions, conc children, container element assignments, an if nested in a for), plus forRange operand faults, unbounded and nested unbounded loops, "
         "break / continue outside loops, unassignable targets; the model's predicted outcome (value / error with cited positions) must be what the call returned — a panic or crash never matches. "
         "(B) engine level: every one of the 21 entry points x 5 faulty rule kinds (two panicking shapes, an unbounded loop, a failing statement, a failing return) x 4 positions of the faulty rule x both flags, "
@@ -258,25 +271,7 @@ def main(run):
     report_reader(run, PID, mism, lambda i: byid[i]["text"])
     escaped = [o for o in obs if o["class"] == "panic" or o.get("crash")]
     # (A') termination scenarios with driver-stated expectations
-    tcs = []
-    for i, (name, body, inj, exp) in enumerate(termination_scenarios()):
-        c = make_case(90000 + i, body, inj)
-        c["fault"], c["expect"] = name, exp
-        tcs.append(c)
-    tobs = run_lang(tcs, timeout=40)
-    term_bad = 0
-    for c, o in zip(tcs, tobs):
-        exp = c["expect"]
-        counts = {}
-        for call_ in o.get("calls") or []:
-            counts[call_["fn"]] = counts.get(call_["fn"], 0) + 1
-        wrong = o["class"] != exp["class"] or o.get("crash") or any(v is not None and counts.get(fn, 0) != v for fn, v in exp.items() if fn != "class")
-        if wrong:
-            term_bad += 1
-            run.report({"kind": "lang-case", "symptom": "termination", "fault": c["fault"]},
-                       {"text": c["text"], "inject": c["inject"], "rule": c["rule"], "observation": {k: o.get(k) for k in ("class", "errmsg", "crash")}, "calls_seen": counts, "expected": exp,
-                        "disagreement": "a loop over a collection that grows while it runs must visit the indexes present at its start and end"},
-                       "C09: '%s': expected %s, observed class=%s%s calls=%s — %s" % (c["fault"], exp, o["class"], " CRASH/HANG" if o.get("crash") else "", counts, c["text"].replace("\n", " | ")[:300]))
+    term_bad = stated_scenarios(run, PID, termination_scenarios(), "a loop over a collection that grows while it runs must visit the indexes present at its start and end")
     # (B)
     _ok, diff, _ = engfam.gen_obligation() if ok else (False, [], "")
     ecases = engine_cases(rng, run.tier)
